@@ -55,7 +55,7 @@ func verifCfgMaxReadWidth(c *config.Config) int { return verifWorld.maxWidth }
 func verifCfgStrictMode(c *config.Config) bool  { return verifWorld.strict }
 func verifCfgBatchLimit(c *config.Config) int   { return 2 }
 func verifCfgNamespaceManager(c *config.Config) (namespace.Manager, error) {
-	return config.NewMemoryNamespaceManager(verifWorld.shape.ns), nil
+	return config.NewMemoryNamespaceManager(verifWorld.shape.namespaces()...), nil
 }
 
 type symDeps struct {
@@ -122,8 +122,8 @@ func (m *memStore) subjIndex(s relationtuple.Subject) (subject, bool) {
 			}
 		}
 	case *relationtuple.SubjectSet:
-		o, r := m.objIndex(v.Object), m.w.shape.relIndex(v.Relation)
-		if v.Namespace == nsN && o >= 0 && r >= 0 {
+		o, r := m.objIndex(v.Object), m.w.shape.relIndexNS(v.Namespace, v.Relation)
+		if o >= 0 && r >= 0 {
 			return subject{isSet: true, sobj: o, srel: r}, true
 		}
 	}
@@ -138,10 +138,17 @@ func (m *memStore) matches(i int, ns *string, obj *uuid.UUID, rel *string, sub r
 // matchTerm is the (possibly symbolic) condition "row i matches".
 func (m *memStore) matchTerm(i int, ns *string, obj *uuid.UUID, rel *string, sub relationtuple.Subject) bool {
 	rw := &m.w.rows[i]
-	if ns != nil && *ns != nsN {
-		return false
-	}
 	c := rw.present
+	if ns != nil && rel == nil {
+		// any relation of that namespace
+		in := false
+		for l := range m.w.shape.rels {
+			if m.w.shape.nsOf(l) == *ns {
+				in = verifOr(in, verifEq(rw.rel, l))
+			}
+		}
+		c = verifAnd(c, in)
+	}
 	if obj != nil {
 		o := m.objIndex(*obj)
 		if o < 0 {
@@ -150,11 +157,21 @@ func (m *memStore) matchTerm(i int, ns *string, obj *uuid.UUID, rel *string, sub
 		c = verifAnd(c, verifEq(rw.obj, o))
 	}
 	if rel != nil {
-		r := m.w.shape.relIndex(*rel)
-		if r < 0 {
-			return false
+		if ns != nil {
+			r := m.w.shape.relIndexNS(*ns, *rel)
+			if r < 0 {
+				return false
+			}
+			c = verifAnd(c, verifEq(rw.rel, r))
+		} else {
+			in := false
+			for l, name := range m.w.shape.rels {
+				if name == *rel {
+					in = verifOr(in, verifEq(rw.rel, l))
+				}
+			}
+			c = verifAnd(c, in)
 		}
-		c = verifAnd(c, verifEq(rw.rel, r))
 	}
 	if sub != nil {
 		s, ok := m.subjIndex(sub)
@@ -275,11 +292,8 @@ func (m *memStore) TraverseSubjectSetRewrite(ctx context.Context, start *relatio
 	}
 	var relations []string
 	for _, relation := range computed {
-		ri := m.w.shape.relIndex(relation)
+		ri := m.w.shape.relIndexNS(start.Namespace, relation)
 		var astRel = m.w.shape.relation(ri)
-		if ri < 0 {
-			astRel = nil
-		}
 		if m.w.strict && astRel != nil && astRel.SubjectSetRewrite != nil {
 			continue
 		}
